@@ -316,6 +316,8 @@ class Engine:
     def read(self, st, loc):
         if loc[0] == "I" and loc[1][0] == "A1" and is_c(loc[2]) and loc[2][1] == 0:
             loc = loc[1][1]
+        if loc[0] == "I" and loc[1][0] == "P" and _frp(loc[1][1]) is not None:
+            loc = ("P", mk_bin("Add", _frp(loc[1][1])[0], loc[2], "usize"))        # element i of from_raw_parts(p, n) is *(p + i)
         v = st.store.get(loc)
         if v is not None:
             return self._with_overrides(st, loc, v)
@@ -1166,8 +1168,20 @@ def some_payload(o):
     return ("someval", o)
 
 
+def _frp(t):
+    """(ptr, n) when t is a slice built by from_raw_parts(_mut)(ptr, n)"""
+    if isinstance(t, tuple) and t and t[0] == "call" and (t[2] or "").endswith(("slice::from_raw_parts", "slice::from_raw_parts_mut")) and len(t[3]) == 2:
+        return t[3][0], t[3][1]
+    return None
+
+
 def mk_len(a):
     """length of the slice/str a reference points to"""
+    while isinstance(a, tuple) and a and a[0] == "ref" and a[1][0] == "P":
+        a = a[1][1]
+    fr_ = _frp(a)
+    if fr_ is not None:
+        return fr_[1]
     if a[0] == "ref":
         loc = a[1]
         if loc[0] == "S":
@@ -1888,6 +1902,8 @@ def slice_parts(eng, st, t, self_ty=None):
             return loc, C(0, "usize"), ("len", t)
         # a reference to a container that derefs to a slice (Box<[T]>, Vec<T>): its elements, opaque length
         return ("P", t), C(0, "usize"), ("len", t)
+    if _frp(t) is not None:
+        return ("P", t), C(0, "usize"), _frp(t)[1]
     if t[0] in ("param", "call", "okval", "someval", "getf", "init", "havoc", "cast", "pay"):
         n = _array_len(t[2]) if t[0] == "param" else None
         if n is not None:
@@ -1899,6 +1915,13 @@ def slice_parts(eng, st, t, self_ty=None):
 def mk_slice(base, lo, hi):
     if base[0] == "P" and is_c(lo) and lo[1] == 0 and hi == ("len", base[1]):
         return base[1]
+    if base[0] == "P" and _frp(base[1]) is not None:
+        # a sub-slice of from_raw_parts(p, n) is from_raw_parts(p + lo, hi - lo)
+        t = base[1]
+        p, n = _frp(t)
+        if is_c(lo) and lo[1] == 0 and hi == n:
+            return t
+        return ("call", t[1], t[2], (mk_bin("Add", p, lo, "usize"), mk_bin("Sub", hi, lo, "usize"))) + t[4:]
     return ("ref", ("S", base, lo, hi))
 
 
@@ -2159,11 +2182,15 @@ def _m_copy_nonoverlapping(eng, st, callee, args, ev):
 
 def _m_ptr_range(eng, st, callee, args, ev):
     sp = slice_parts(eng, st, args[0], callee.get("self_ty"))
-    if sp is None or sp[0][0] != "P":
+    if sp is None or sp[0][0] == "A1":
         return NotImplemented
     b0, lo0, hi0 = sp
     key = "core::slice::<impl [T]>::" + ("as_mut_ptr" if "mut" in callee["name"] else "as_ptr")
-    base = ("call", ev["id"], key, (b0[1],), "*const u8")
+    if b0[0] == "P" and _frp(b0[1]) is not None:
+        p0 = _frp(b0[1])[0]
+        return ("agg", "adt", "core::ops::range::Range", "Range", ("start", "end"), (mk_bin("Add", p0, lo0, "usize"), mk_bin("Add", p0, hi0, "usize")), 0)
+    whole = b0[1] if b0[0] == "P" else ("ref", b0)
+    base = ("call", ev["id"], key, (whole,), "*const u8")
     return ("agg", "adt", "core::ops::range::Range", "Range", ("start", "end"), (mk_bin("Add", base, lo0, "usize"), mk_bin("Add", base, hi0, "usize")), 0)
 
 
@@ -2179,10 +2206,12 @@ def _m_as_ptr(eng, st, callee, args, ev):
     if sp is None:
         return NotImplemented
     b0, lo0, hi0 = sp
-    if b0[0] != "P":
+    if b0[0] == "A1":
         return NotImplemented
-    base = ("call", ev["id"], ev["key"], (b0[1],), "*const u8")
-    ev["pure_of"] = b0[1]
+    if b0[0] == "P" and _frp(b0[1]) is not None:
+        return mk_bin("Add", _frp(b0[1])[0], lo0, "usize")       # the pointer the slice was built from
+    whole = b0[1] if b0[0] == "P" else ("ref", b0)
+    base = ("call", ev["id"], ev["key"], (whole,), "*const u8")
     return mk_bin("Add", base, lo0, "usize")
 
 
